@@ -201,6 +201,12 @@ type NumericRangeFacet struct {
 }
 
 func (nrf *NumericRangeFacet) Same(other *NumericRangeFacet) bool {
+	// ranges are identified by name (a request may not repeat a name, but
+	// may give two names the same bounds); merging shard results by bounds
+	// alone folded such ranges into one
+	if nrf.Name != other.Name {
+		return false
+	}
 	if nrf.Min == nil && other.Min != nil {
 		return false
 	}
@@ -254,6 +260,9 @@ type DateRangeFacet struct {
 }
 
 func (drf *DateRangeFacet) Same(other *DateRangeFacet) bool {
+	if drf.Name != other.Name {
+		return false
+	}
 	if drf.Start == nil && other.Start != nil {
 		return false
 	}
